@@ -1026,13 +1026,17 @@ pub fn audit(index: &Index, runes: &RuneModel, sats: &SatModel, e: &mut Exec, fe
 // ---------------------------------------------------------------------------
 
 pub fn exec(w: &mut Worker, cfg: &IndexCfg, layout: &Layout, choices: &Choices, events: bool) -> Exec {
+  exec_batch(w, cfg, layout, choices, events, false)
+}
+
+pub fn exec_batch(w: &mut Worker, cfg: &IndexCfg, layout: &Layout, choices: &Choices, events: bool, batch: bool) -> Exec {
   let mut e = Exec::default();
   let Some((blocks, rendered)) = build_history(w, layout, choices) else {
     e.disabled = true;
     return e;
   };
   e.rendered = rendered;
-  run_blocks(w, cfg, blocks, &mut e, events, false);
+  run_blocks(w, cfg, blocks, &mut e, events && !batch, batch);
   e
 }
 
@@ -1301,7 +1305,7 @@ pub fn run_into(ctx: &Ctx, property: &'static str, mut report: Report) -> Report
     let l = r["l"].as_u64().unwrap_or(2) as usize;
     let layout = Layout { l, slots: 2, templates, shapes };
     let mut w = Worker::new(0);
-    let e = exec(&mut w, &cfg, &layout, &choices, events);
+    let e = exec_batch(&mut w, &cfg, &layout, &choices, events, r["batch"].as_bool().unwrap_or(false));
     println!("replay history: {}", e.rendered);
     for (p, c, what) in &e.violations {
       println!("  [{p}] {c}: {what}");
@@ -1316,7 +1320,7 @@ pub fn run_into(ctx: &Ctx, property: &'static str, mut report: Report) -> Report
     return report;
   }
 
-  let budget_total: u64 = if ctx.thorough() { 2400 } else { 40 };
+  let budget_total: u64 = if ctx.thorough() { 3600 } else { 40 };
   let mut all_states: BTreeSet<String> = BTreeSet::new();
   let mut exhaustive = true;
   let mut traces = 0;
@@ -1353,8 +1357,8 @@ pub fn run_into(ctx: &Ctx, property: &'static str, mut report: Report) -> Report
     traces += 1;
   }
   // (k_min, k_max, blocks)
-  let stages: Vec<(usize, usize, usize)> = if ctx.thorough() { vec![(0, 3, 3)] } else { vec![(0, 1, 3), (2, 2, 2)] };
-  for (kmin, kmax, l) in &stages {
+  let stages: Vec<(usize, usize, usize, bool)> = if ctx.thorough() { vec![(1, 2, 3, true), (0, 3, 3, false)] } else { vec![(0, 1, 3, false), (2, 2, 2, false)] };
+  for (kmin, kmax, l, batch) in &stages {
     let layout = layout_for(ctx, *kmax, *l);
     let spec = RunSpec {
       property,
@@ -1366,17 +1370,18 @@ pub fn run_into(ctx: &Ctx, property: &'static str, mut report: Report) -> Report
       budget_secs: budget_total / stages.len() as u64,
     };
     let mut sub = Report::new(property, &ctx.tier, "model_checking");
-    let totals: Totals = run_histories(&spec, &mut sub, Worker::new, |w, c| exec(w, &cfg, &layout, c, events));
+    let totals: Totals = run_histories(&spec, &mut sub, Worker::new, |w, c| exec_batch(w, &cfg, &layout, c, events, *batch));
     for mut viol in sub.violations.drain(..) {
       viol.replay["templates"] = json!(layout.templates);
       viol.replay["shapes"] = json!(layout.shapes);
       viol.replay["l"] = json!(layout.l);
+      viol.replay["batch"] = json!(*batch);
       report.violations.push(viol);
     }
     for s in sub.samples.drain(..) {
       report.sample(s);
     }
-    fold_totals(&mut report, &format!("runes.k{kmax}.l{l}"), &totals, *kmax);
+    fold_totals(&mut report, &format!("runes.k{kmax}.l{l}{}", if *batch { ".one-update" } else { "" }), &totals, *kmax);
     all_states.extend(totals.states.iter().cloned());
     traces += totals.executions;
     if totals.capped {
